@@ -363,6 +363,8 @@ class Engine:
             return Obj(kind[4:])
         if kind == "type":
             return Const("numeric-type")
+        if kind == "convtype":
+            return Const("conversion-type")
         if kind == "any":
             return Opaque(name)
         if kind.startswith("opaque:"):
@@ -807,6 +809,10 @@ class Engine:
                 s.env[cname] = Num(s.env[cname].z + step, True)
             return self.run_loop(node, st, exits, k, lc, guard, pre, post, node.body, node.orelse, modified)
         seq = self.eval(it, st, exits)
+        if isinstance(seq, Obj):
+            h = self.c.calls.get("iter:%s" % seq.cls)
+            if h is not None:
+                seq = h.handler(self, st, [seq], {}, node, exits)
         if isinstance(seq, Tup):
             if all(isinstance(x, Num) for x in seq.items):
                 arr = z3.K(z3.IntSort(), z3.RealVal(0))
@@ -1218,6 +1224,10 @@ class Engine:
                 # cls(x): numeric embedding of an integer / number (int, float, Fraction) — value preserved
                 args = [self.eval(a, st, exits) for a in node.args]
                 return Num(args[0].real(), False)
+            if name in st.env and isinstance(st.env[name], Const) and st.env[name].py == "conversion-type":
+                # cls(x) for an ARBITRARY target type: an uninterpreted conversion (may change the value; may be refused by the caller's tolerance test)
+                args = [self.eval(a, st, exits) for a in node.args]
+                return Num(CONV(args[0].real()), False)
             return self.builtin(name, node, st, exits)
         raise Unsupported("call of %s" % ast.unparse(f))
 
@@ -1320,6 +1330,10 @@ class Engine:
             x, y = (a.z, b.z) if both else (a.real(), b.real())
             c = x <= y if name == "min" else x >= y
             return Num(z3.If(c, x, y), both)
+        if name in ("str", "repr"):
+            return Const("a-string")
+        if name == "type":
+            return Const("numeric-type")
         if name == "range":
             if len(args) == 1:
                 lo, hi, step = z3.IntVal(0), args[0].z, 1
@@ -1421,6 +1435,7 @@ class SkipClause(Exception):
     pass
 
 
+CONV = z3.Function("CONVERT", z3.RealSort(), z3.RealSort())
 ROWSORT = z3.ArraySort(z3.IntSort(), z3.RealSort())
 MATSORT = z3.ArraySort(z3.IntSort(), ROWSORT)       # nested arrays: standard SMT-LIB, accepted by cvc5 as well
 
